@@ -1,0 +1,189 @@
+//! Verification hooks (compiled only with `--cfg libp2p_verif`): thin public wrappers
+//! that call the crate-private routing table items. No logic of their own.
+
+use super::*;
+
+/// Bucket index of a distance (`BucketIndex::new`).
+pub fn bucket_index(d: &Distance) -> Option<usize> {
+    BucketIndex::new(d).map(|i| i.get())
+}
+
+/// Inclusive distance range of a bucket (`BucketIndex::range`).
+pub fn bucket_range(i: usize) -> (Distance, Distance) {
+    BucketIndex(i).range()
+}
+
+/// The order in which `ClosestBucketsIter` visits the buckets for a target at
+/// distance `d` from the local key. Returns the number of indices produced
+/// (at most `out.len()` are stored).
+pub fn bucket_visit_order(d: Distance, out: &mut [u16]) -> usize {
+    let mut n = 0;
+    for i in ClosestBucketsIter::new(d) {
+        if n < out.len() {
+            out[n] = i.get() as u16;
+        }
+        n += 1;
+    }
+    n
+}
+
+/// One step of `ClosestBucketsIter`.
+pub struct BucketsIter(ClosestBucketsIter);
+impl BucketsIter {
+    pub fn new(d: Distance) -> Self {
+        BucketsIter(ClosestBucketsIter::new(d))
+    }
+    pub fn next(&mut self) -> Option<usize> {
+        self.0.next().map(|i| i.get())
+    }
+}
+
+/// Result of [`Table::insert_or_update`].
+#[derive(Debug, Clone, Copy, PartialEq, Eq)]
+pub enum OpResult {
+    LocalKey,
+    UpdatedPresent,
+    UpdatedPending,
+    Inserted,
+    Pending,
+    Full,
+    Removed,
+    RemovedPending,
+    Absent,
+}
+
+/// A `KBucketsTable<KeyBytes, u8>`.
+pub struct Table(KBucketsTable<KeyBytes, u8>);
+
+fn status(connected: bool) -> NodeStatus {
+    if connected {
+        NodeStatus::Connected
+    } else {
+        NodeStatus::Disconnected
+    }
+}
+
+impl Table {
+    pub fn new(local: KeyBytes, bucket_size: usize, pending_timeout: Duration) -> Self {
+        let mut config = KBucketConfig::default();
+        config.set_bucket_size(NonZeroUsize::new(bucket_size).expect("non-zero"));
+        config.set_pending_timeout(pending_timeout);
+        Table(KBucketsTable::new(local, config))
+    }
+
+    /// Replaces bucket `idx` by a bucket in the given state.
+    #[allow(clippy::too_many_arguments)]
+    pub fn set_bucket(
+        &mut self,
+        idx: usize,
+        keys: &[KeyBytes],
+        capacity: usize,
+        first_connected_pos: Option<usize>,
+        pending: Option<(KeyBytes, bool, Instant)>,
+        pending_timeout: Duration,
+    ) {
+        let nodes = keys.iter().map(|k| Node { key: *k, value: 0u8 }).collect();
+        self.0.buckets[idx] = KBucket::verif_from_parts(
+            nodes,
+            capacity,
+            first_connected_pos,
+            pending.map(|(k, c, t)| (Node { key: k, value: 0u8 }, status(c), t)),
+            pending_timeout,
+        );
+    }
+
+    /// `KBucketsTable::entry` followed by insert (absent) or status update (present / pending).
+    pub fn insert_or_update(&mut self, key: &KeyBytes, connected: bool) -> OpResult {
+        match self.0.entry(key) {
+            None => OpResult::LocalKey,
+            Some(Entry::Present(mut e, _)) => {
+                e.update(status(connected));
+                OpResult::UpdatedPresent
+            }
+            Some(Entry::Pending(e, _)) => {
+                e.update(status(connected));
+                OpResult::UpdatedPending
+            }
+            Some(Entry::Absent(e)) => match e.insert(0u8, status(connected)) {
+                InsertResult::Inserted => OpResult::Inserted,
+                InsertResult::Pending { .. } => OpResult::Pending,
+                InsertResult::Full => OpResult::Full,
+            },
+        }
+    }
+
+    /// `KBucketsTable::entry` followed by removal.
+    pub fn remove(&mut self, key: &KeyBytes) -> OpResult {
+        match self.0.entry(key) {
+            None => OpResult::LocalKey,
+            Some(Entry::Present(e, _)) => {
+                e.remove();
+                OpResult::Removed
+            }
+            Some(Entry::Pending(e, _)) => {
+                e.remove();
+                OpResult::RemovedPending
+            }
+            Some(Entry::Absent(_)) => OpResult::Absent,
+        }
+    }
+
+    /// `KBucketsTable::bucket` (applies a ready pending entry of that bucket).
+    pub fn touch(&mut self, key: &KeyBytes) -> bool {
+        self.0.bucket(key).is_some()
+    }
+
+    pub fn take_applied_pending(&mut self) -> Option<(KeyBytes, Option<KeyBytes>)> {
+        self.0
+            .take_applied_pending()
+            .map(|a| (a.inserted.key, a.evicted.map(|n| n.key)))
+    }
+
+    pub fn bucket_len(&self, idx: usize) -> usize {
+        self.0.buckets[idx].num_entries()
+    }
+
+    pub fn bucket_capacity(&self, idx: usize) -> usize {
+        self.0.buckets[idx].verif_capacity()
+    }
+
+    pub fn bucket_key(&self, idx: usize, pos: usize) -> Option<KeyBytes> {
+        self.0.buckets[idx].verif_node_at(pos).map(|n| n.key)
+    }
+
+    /// `KBucket::iter` status of the entry at `pos`.
+    pub fn bucket_connected(&self, idx: usize, pos: usize) -> Option<bool> {
+        self.0.buckets[idx]
+            .iter()
+            .nth(pos)
+            .map(|(_, s)| s == NodeStatus::Connected)
+    }
+
+    pub fn bucket_first_connected_pos(&self, idx: usize) -> Option<usize> {
+        self.0.buckets[idx].verif_first_connected_pos()
+    }
+
+    pub fn bucket_pending(&self, idx: usize) -> Option<(KeyBytes, bool, Instant)> {
+        self.0.buckets[idx]
+            .verif_pending_parts()
+            .map(|(n, s, t)| (n.key, s == NodeStatus::Connected, t))
+    }
+
+    /// `KBucketsTable::closest_keys`; returns the number of keys produced
+    /// (at most `out.len()` are stored).
+    pub fn closest_keys(&mut self, target: &KeyBytes, out: &mut [KeyBytes]) -> usize {
+        let mut n = 0;
+        for k in self.0.closest_keys(target) {
+            if n < out.len() {
+                out[n] = k;
+            }
+            n += 1;
+        }
+        n
+    }
+
+    /// `KBucketsTable::count_nodes_between`.
+    pub fn count_nodes_between(&mut self, target: &KeyBytes) -> usize {
+        self.0.count_nodes_between(target)
+    }
+}
